@@ -23,8 +23,11 @@ def declare(reg):
         P, "IMAPClientCommand._p_mailbox", params={"self": "ref:IMAPClientCommand"}, ret="str",
         ensures={"confined": "result == '' or safe_rel(rel_name(result))"},
         raises={"NoMatch": None, "BadSyntax": None, "BadLiteral": None},
-        props=["C09"],
-        ghost={"harness": "harness.confine:ParserNames"},
+        props=["C09", "C08"],
+        ghost={"harness": "harness.confine:ParserNames", "call_asserts": {"_p_simple_string": {
+            # C08 (d): the case-insensitive INBOX matcher is consulted only when the five letters are a whole token
+            "inbox-is-a-whole-token": "self.input[5:6] == '' or self.input[5:6] == ' ' or self.input[5:6] == '\\r' or self.input[5:6] == '\\n' or self.input[5:6] == ')'",
+        }}},
     )
     U = "asimap/user_server.py"
     reg.contract("asimap/mh.py", "MH.get_folder", params={"self": "ref:MH", "folder": "str"}, ret="ref:MH",
